@@ -9,7 +9,7 @@ import errno
 from checks import chan_common as cc
 from checks import chan_model
 
-LEVEL = "exploration"
+LEVEL = "model_checking"
 
 
 def scenarios(thorough):
@@ -42,7 +42,7 @@ def scenarios(thorough):
 
 def run(chk, replay=None):
     scns = scenarios(chk.thorough)
-    chan_model.model_check(chk, "C11")
+    chan_model.model_check(chk, "C11", scns)
     n_pct, dfs = (800, 3000) if chk.thorough else (60, 300)
     cc.explore_and_validate(chk, "C11", scns, n_pct, dfs, bound=2, label="close-race")
     chk.rule = ("cases = schedules of the real server over %d close-race scenarios (closing message x follower x same/later read x lookahead); "
